@@ -131,10 +131,17 @@ Definition afm_rel_ok (r : relation) : bool :=
   | [] => false
   | _ => (0 <=? r_min r)%Z && (0 <=? r_max r)%Z      (* any non-negative cardinality, also for one child *)
   end.
-(* a float is carried as its repr; that the parser side supplies repr(float(text)) = text for the writer's own
-   text is part of the parser premise (validated by suite P-afm) *)
+(* a float is carried as its repr and written in its positional spelling (py_positional); a float without one
+   (an infinity, NaN) has no AFM text and is outside the fragment.  That the parser side supplies
+   repr(float(text)) = repr for the writer's own text is part of the parser premise (validated by suite P-afm).
+   (Before the fix of afm_value the clause for VFloat was "true".) *)
 Definition afm_val_ok (v : aval) : bool :=
-  match v with VInt z => (0 <=? z)%Z | VStr _ => true | VFloat _ => true | _ => false end.
+  match v with
+  | VInt z => (0 <=? z)%Z
+  | VStr _ => true
+  | VFloat r => match py_positional r with Some _ => true | None => false end
+  | _ => false
+  end.
 Definition afm_attr_ok (a : attr) : bool :=
   afm_val_ok (a_default a) && afm_val_ok (a_null a) &&
   match a_dom a with
@@ -476,13 +483,20 @@ Qed.
 Lemma afm_read_paren x ex : afm_read_expr "" (if is_op x then EParen ex else ex) = afm_read_expr "" ex.
 Proof. destruct (is_op x); reflexivity. Qed.
 
+(* outside a block (empty prefix) a name is read as it stands, whatever its first character *)
+Lemma afm_read_var_top s : afm_read_expr "" (EVar s) = Ok (term s).
+Proof.
+  cbn [afm_read_expr]. destruct s as [|c s']; [reflexivity|].
+  destruct (is_lower c); reflexivity.
+Qed.
+
 Lemma afm_expr_roundtrip : forall n, afm_node_ok n = true ->
   exists e, afm_expr n = Ok e /\ afm_read_expr "" e = Ok n.
 Proof.
   induction n as [d|d a IHa|d b IHb|d a b IHa IHb] using node_ind2; intros Hok.
   - destruct d as [o|s|z|r|bb]; cbn [afm_node_ok] in Hok; try discriminate.
     + destruct (astop_eqb o NOT); rewrite andb_false_r in Hok; discriminate.
-    + exists (EVar s). split; reflexivity.
+    + exists (EVar s). split; [reflexivity|exact (afm_read_var_top s)].
   - destruct d as [o|s|z|r|bb]; cbn [afm_node_ok] in Hok; try discriminate.
     apply andb_prop in Hok. destruct Hok as [_ Hok].
     destruct o; cbn [astop_eqb] in Hok; try discriminate.
@@ -1470,7 +1484,8 @@ Lemma afm_value_roundtrip v : afm_val_ok v = true ->
 Proof.
   destruct v as [|b|z|r|s|l|kv]; cbn [afm_val_ok]; intros H; try discriminate.
   - exists (AvInt (z_to_string z)). split; [reflexivity|]. cbn [afm_value_aval]. rewrite afm_to_int_z. reflexivity.
-  - exists (AvDouble r r). split; reflexivity.
+  - destruct (py_positional r) as [t|] eqn:Hp; [|discriminate].
+    exists (AvDouble t r). split; [cbn [afm_value]; rewrite Hp; reflexivity|reflexivity].
   - exists (AvText s). split; reflexivity.
 Qed.
 
@@ -1912,3 +1927,26 @@ Print Assumptions afm_cycle_cst.
 Print Assumptions afm_item_cases.
 Print Assumptions afm_item_one_child_group.
 Print Assumptions ex1_roundtrip.
+
+(* the writer's float text is positional (the grammar's DOUBLE has no exponent); a non-finite float has none *)
+Example afm_value_positional :
+  afm_value (VFloat "1e+16") = Ok (AvDouble "10000000000000000.0" "1e+16")
+  /\ afm_value (VFloat "inf") = Err FlamaException.
+Proof. vm_compute. split; reflexivity. Qed.
+
+Print Assumptions afm_value_roundtrip.
+Print Assumptions afm_value_positional.
+
+(* a number as an operand of a logical constraint is a library error *)
+Example afm_read_number_operand :
+  afm_read_expr "" (EBin "IMPLIES" (EVar "B") (ENum "5")) = Err FlamaException.
+Proof. vm_compute. reflexivity. Qed.
+
+(* inside a block  B { ... }  only a bare attribute name (lower-case initial) is relative to B *)
+Example afm_read_block_prefix :
+  afm_read_expr "B." (EBin "IMPLIES" (EVar "fast") (EVar "C")) = Ok (bin IMPLIES (term "B.fast") (term "C"))
+  /\ afm_read_expr "B." (EVar "C.cheap") = Ok (term "C.cheap").
+Proof. vm_compute. split; reflexivity. Qed.
+
+Print Assumptions afm_read_number_operand.
+Print Assumptions afm_read_block_prefix.
